@@ -10,6 +10,7 @@ def compactDispatch : Dispatch := fun op j =>
   | "compact.closed" => some (Compact.opClosed j)
   | "compact.shape" => some (Compact.opShape j)
   | "compact.encode" => some (Compact.opEncode j)
+  | "compact.chain" => some (Compact.opChain j)
   | "ofc.face" => some (Compact.opFace j)
   | _ => none
 
